@@ -21,6 +21,8 @@ pub struct SbRun {
     pub nodes: u64,
     pub panicked: Option<String>,
     pub stopped: bool,
+    /// stopped by the node cap in the middle of an iteration (not at the first line of depth D+1)
+    pub capped: bool,
     pub table_after: Vec<(u64, u8)>,
 }
 
@@ -42,7 +44,7 @@ pub fn run_search_with_allowance(board: &BoardState, table: &DrawTable, expire_a
     seam::install_panic_hook();
     let (tx, rx) = mpsc::channel::<BoardState>();
     let mut t = table.clone();
-    let prev = seam::install(Ctx::Scripted(Scripted { expire_at, queries: 0, nodes: 0, lines: vec![], sends: vec![], stop_at_depth, node_cap }));
+    let prev = seam::install(Ctx::Scripted(Scripted { expire_at, queries: 0, nodes: 0, lines: vec![], sends: vec![], stop_at_depth, node_cap, capped: false }));
     let start = Instant(0);
     let res = std::panic::catch_unwind(std::panic::AssertUnwindSafe(|| {
         get_best_move(board, &mut t, start, allowance_ms, &tx);
@@ -65,14 +67,15 @@ pub fn run_search_with_allowance(board: &BoardState, table: &DrawTable, expire_a
     while let Ok(b) = rx.try_recv() {
         sends.push(b);
     }
+    let capped = s.capped;
     let mut send_q = s.sends;
-    if stopped && sends.len() == s.lines.len() + 1 {
+    if stopped && !capped && sends.len() == s.lines.len() + 1 {
         // stopped while the first line of depth D+1 was about to be printed: its board had
         // already been sent; drop it so that boards and lines correspond one to one
         sends.pop();
         send_q.pop();
     }
-    SbRun { sends, send_q, lines: s.lines, queries: s.queries, nodes: s.nodes, panicked, stopped, table_after: table_counts(&t) }
+    SbRun { sends, send_q, lines: s.lines, queries: s.queries, nodes: s.nodes, panicked, stopped, capped, table_after: table_counts(&t) }
 }
 
 pub fn same_board(a: &BoardState, b: &BoardState) -> bool {
